@@ -136,6 +136,12 @@ func runCase(res *vkit.Result, c Case) {
 	case "shared-long":
 		perInstance = false
 		rpsDur = startupDur + 1500*time.Millisecond
+	case "shared-unknown-tail":
+		// a shared profile of unknown total: a short paced part, one single request, and an
+		// unlimited part that outlasts the startup profile — the profile is not over before the
+		// unlimited part is, whatever the parts in front of it hold
+		perInstance = false
+		rpsDur = startupDur + 1500*time.Millisecond
 	case "rps-early":
 		perInstance = false
 		rpsDur = startupDur/2 + time.Millisecond
@@ -186,7 +192,9 @@ func runCase(res *vkit.Result, c Case) {
 		if !perInstance {
 			if shared == nil {
 				var inner core.Schedule = schedule.NewConst(rate, rpsDur)
-				if c.Seed%2 == 0 {
+				if c.Scenario == "shared-unknown-tail" {
+					inner = schedule.NewComposite(schedule.NewConst(rate, 60*time.Millisecond), schedule.NewOnce(1), schedule.NewUnlimited(rpsDur))
+				} else if c.Seed%2 == 0 {
 					// a shared profile made of several parts (an rps list): crossing a part boundary
 					// must not look like the end of the profile to any instance
 					inner = schedule.NewComposite(schedule.NewConst(rate, rpsDur/3), schedule.NewConst(rate, rpsDur/3), schedule.NewConst(rate, rpsDur-2*(rpsDur/3)))
@@ -332,7 +340,7 @@ func runCase(res *vkit.Result, c Case) {
 		fail("too-many", "%d instances started, profile holds %d tokens", S, total)
 	}
 	switch c.Scenario {
-	case "free", "free-short", "shared-long", "slow-first-shot":
+	case "free", "free-short", "shared-long", "shared-unknown-tail", "slow-first-shot":
 		if S != total {
 			fail("not-all-started", "%d instances started, profile holds %d tokens and nothing cut the start short", S, total)
 		}
@@ -373,6 +381,7 @@ func absDur(d time.Duration) time.Duration {
 var seeds = []Case{
 	{Startup: vkit.SchedSpec{Kind: "instance_step", A: 2, B: 8, N: 3, DurMs: 60}, Scenario: "free"},
 	{Startup: vkit.SchedSpec{Kind: "instance_step", A: 0, B: 4, N: 2, DurMs: 50}, Scenario: "shared-long"},
+	{Startup: vkit.SchedSpec{Kind: "composite", Parts: []vkit.SchedSpec{{Kind: "once", N: 1}, {Kind: "const", A: 0, DurMs: 300}, {Kind: "once", N: 2}}}, Scenario: "shared-unknown-tail", Seed: 31},
 	{Startup: vkit.SchedSpec{Kind: "once", N: 6}, Scenario: "free"},
 	{Startup: vkit.SchedSpec{Kind: "instance_step", A: 1, B: 4, N: 1, DurMs: 150}, Scenario: "free-short"},
 	{Startup: vkit.SchedSpec{Kind: "const", A: 20, DurMs: 400}, Scenario: "free-short"},
@@ -451,7 +460,7 @@ func main() {
 	rng := vkit.Rand("c12")
 	cases := append([]Case{}, seeds...)
 	n := vkit.N(200, 5000)
-	scen := []string{"free", "free-short", "free-short", "shared-long", "ammo-early", "rps-early", "fail-k", "cancel"}
+	scen := []string{"free", "free-short", "free-short", "shared-long", "shared-unknown-tail", "ammo-early", "rps-early", "fail-k", "cancel"}
 	for i := 0; i < n; i++ {
 		c := Case{Startup: genStartup(rng, 0), Scenario: scen[rng.Intn(len(scen))], Seed: rng.Int63()}
 		if i%40 == 13 {
